@@ -141,6 +141,11 @@ def switchToHTML (o : OutputSpec) (f : Formatter) (firstElem : Option Str) : For
     else f
   | _, _, _ => f
 
+/-- `XSLTEngineImpl::characters / charactersRaw / cdata (ch, start, length)`: the characters handed to the listener.
+`usesStart` is the regenerated source fact "the call passes `ch + start`" (it did not for `charactersRaw` and `cdata`). -/
+def engineSlice (usesStart : Bool) (buf : Str) (start length : Nat) : Str :=
+  if usesStart then (buf.drop start).take length else buf.take length
+
 mutual
 /-- events for one node; `inCD` = `m_cdataStack.back()` (false when the stylesheet has no
 cdata-section-elements) -/
